@@ -78,6 +78,7 @@ func C13(c *core.Ctx) {
 	// another result than the first.
 	c13DirectValidatorCalls(c)
 	c13CountryGuards(c)
+	c13PartiesNormalised(c)
 	c.Rule("C13-R6", "the alternative country codes a regime is registered under are the ones its published definition lists (shared with C19-R5)", 2)
 	{
 		sub := core.NewCtx("C19", c.Tier, c.Seed, c.P, c.VerifDir)
